@@ -327,12 +327,61 @@ func exec(line string) (res result) {
 		return execLvl2(ws)
 	case op == "getlvl2" && len(rest) == 1:
 		return execGetLvl2(line, rest[0])
+	case op == "multi" && len(rest) == 3:
+		return execMulti(line, rest[0], rest[1], rest[2])
 	case (op == "xread" || op == "xover") && len(rest) == 3:
 		return execXRead(line, op, rest[0], rest[1], rest[2])
 	case op == "xwrite" && len(rest) == 4:
 		return execXWrite(line, rest[0], rest[1], rest[2], rest[3])
 	}
 	return bad(line)
+}
+
+// multi: the union `multi` of the article header (fileheader_t): SetMoney / SetAnonUID store a 32-bit value in its
+// first four bytes, Money / AnonUID read it back.  P-hat, from the frozen C layout (`int money; int anon_uid;` at the
+// member's offset, little-endian two's complement, the value as it is): the serialized record carries exactly that
+// image at the frozen offset of `multi`, nothing else of the record changes, and the getter returns the value.
+func execMulti(line, kind, pres, vals string) (res result) {
+	res.line = line
+	pre, ok := unhex(pres)
+	v, ok2 := atoiStrict(vals)
+	if !ok || !ok2 || (kind != "money" && kind != "anon") || len(pre) != 4 || v < -2147483648 || v > 2147483647 {
+		return bad(line)
+	}
+	f := &ptttype.FileHeaderRaw{}
+	copy(f.Multi[:], pre)
+	before := encodeValue(reflect.ValueOf(f).Elem())
+	var got int32
+	if kind == "money" {
+		_ = f.SetMoney(int32(v))
+		got = f.Money()
+	} else {
+		_ = f.SetAnonUID(ptttype.UID(v))
+		got = f.AnonUID()
+	}
+	after := encodeValue(reflect.ValueOf(f).Elem())
+	fp, okf := frozenFieldOf("FileHeaderRaw", "Multi")
+	if !okf || fp.off+4 > len(after) {
+		res.out, res.label = "none", "multi:none"
+		return res
+	}
+	res.out = fmt.Sprintf("%s get=%d", hx.Hex(after[fp.off:fp.off+fp.size]), got)
+	res.label = "multi:" + kind
+	u := uint32(int32(v))
+	want := []byte{byte(u), byte(u >> 8), byte(u >> 16), byte(u >> 24)}
+	if !bytes.Equal(after[fp.off:fp.off+4], want) {
+		res.fails = append(res.fails, fail{"layout:FileHeaderRaw.multi." + kind, fmt.Sprintf("Set(%d) stores % x at offset %d of the record; pttbbs reads the int % x there", v, after[fp.off:fp.off+4], fp.off, want)})
+	}
+	if int64(got) != v {
+		res.fails = append(res.fails, fail{"layout:FileHeaderRaw.multi." + kind, fmt.Sprintf("Set(%d) then Get = %d", v, got)})
+	}
+	for i := range after {
+		if (i < fp.off || i >= fp.off+4) && after[i] != before[i] {
+			res.fails = append(res.fails, fail{"layout:FileHeaderRaw.multi." + kind, fmt.Sprintf("Set(%d) changed byte %d of the record (outside the union's first four bytes)", v, i)})
+			break
+		}
+	}
+	return res
 }
 
 // size: unsafe.Sizeof / binary.Size / alignment of the compiled type.
@@ -1198,6 +1247,19 @@ func main() {
 		do(fmt.Sprintf("offconst %s %s", c, k), true)
 	}
 	do(fmt.Sprintf("offconst %s NO_SUCH_OFFSET", c), false)
+
+	// ---- the multi union of the article header: boundary values and random ones, both members --------------
+	for _, kind := range []string{"money", "anon"} {
+		for _, v := range []int64{0, 1, 2, 5, 255, 256, 65535, 65536, 16777216, 2147483647, -1, -2, -2147483648} {
+			do(fmt.Sprintf("multi %s %s %s %d", c, kind, hx.Hex(r.Bytes(4, nil)), v), true)
+		}
+		for i := 0; i < 40; i++ {
+			do(fmt.Sprintf("multi %s %s %s %d", c, kind, hx.Hex(r.Bytes(4, nil)), int64(int32(r.U64()))), true)
+		}
+	}
+	do(fmt.Sprintf("multi %s vote 00000000 1", c), false)
+	do(fmt.Sprintf("multi %s money 000000 1", c), false)
+	do(fmt.Sprintf("multi %s anon 00000000 2147483648", c), false)
 	for ti := range recTypes {
 		t := &recTypes[ti]
 		do(fmt.Sprintf("size %s %s", c, t.name), true)
